@@ -8,7 +8,7 @@ git -C /repo diff --quiet || { echo "/repo dirty"; exit 2; }
 trap 'git -C /repo checkout -- . 2>/dev/null' EXIT
 git -C /repo apply /verif/seeded/$ID/patch.diff || exit 2
 log=$(mktemp)
-./check $PROP --tier quick > $log 2>&1; rc=$?
+AXSIM_EVIDENCE_DIR=/tmp/axsim_scratch_evidence ./check $PROP --tier quick > $log 2>&1; rc=$?
 rp=$(grep "^VIOLATION property=$PROP replay=" $log | head -1 | sed 's/.*replay=//')
 cls=$(grep -A1 "^VIOLATION property=$PROP " $log | grep "class=" | head -1 | sed 's/.*class=\([^ ]*\).*steps \([0-9]*->[0-9]*\).*/\1 steps \2/')
 rr="-"; [ -n "$rp" ] && { ./replay "$rp" >/dev/null 2>&1; rr=$?; }
